@@ -1041,7 +1041,7 @@ func propC01() *lib.Prop {
 		Rule:     "cases = cluster runs (schedule of feeds, checkpoint rounds with forced acknowledgement orders, worker/job kills at chosen points of the round, restarts); every recorded event must be an enabled step of Rxn.Pipeline.step and every handler invocation must be given the model's key state; non-trivial = a deployment restored a published checkpoint after a failure and handler invocations followed it",
 		NumCases: func(tier string) int {
 			if tier == "thorough" {
-				return 320
+				return 240
 			}
 			return 40
 		},
